@@ -289,6 +289,15 @@ def entry_points(ctx):
     return roots
 
 
+def _owner(short):
+    """Class (for methods and functions nested in them) or module (for plain functions) that owns a function."""
+    parts = short.split('.<locals>.')[0].split('.')
+    for i, p_ in enumerate(parts):
+        if p_[:1].isupper():
+            return '.'.join(parts[:i + 1])
+    return '.'.join(parts[:-1])
+
+
 def rule_raise(ctx, rep):
     model = ctx.model
     cg = ctx.callgraph()
@@ -297,6 +306,11 @@ def rule_raise(ctx, rep):
     roots = entry_points(ctx)
     reach = cg.reachable(roots)
     n = 0
+    owner_level = {}
+    for k_, e_ in audit.items():
+        parts = k_.split('/')
+        if len(parts) == 4 and parts[1] == 'R-RAISE':
+            owner_level.setdefault((_owner(parts[2]), parts[3]), e_)
     for q in sorted(reach):
         fi = model.functions.get(q)
         if fi is None:
@@ -308,6 +322,9 @@ def rule_raise(ctx, rep):
                 what = ast.unparse(node.exc).split('(')[0] if node.exc is not None else 'reraise'
                 k = 'C01/R-RAISE/%s/%s' % (fi.short, what)
                 entry = audit.get(k)
+                if entry is None:
+                    # the reviewed refusal may have moved into a helper of the same class / module
+                    entry = owner_level.get((_owner(fi.short), what))
                 ok = entry is not None
                 if ok:
                     rep.audit_used.append({'key': k, 'reason': entry['reason']})
